@@ -110,7 +110,24 @@ func c15Txn(tg *txnGen) []TOp {
 	var ops []TOp
 	// operations using the names, placed before and after the inserts
 	use := func() TOp {
-		switch g.Intn(5) {
+		switch g.Intn(10) {
+		case 5:
+			// delete from a uuid-keyed map by a set of keys (RFC 7047 5.1) holding names
+			return TOp{Kind: "mutate", Table: "N", Where: []Cond{}, Muts: []Mut{{Col: "mus", Mutator: "delete", Arg: val.VS(ref(""), val.Uuid(gen.UUIDn(7))).Canon()}}}
+		case 6:
+			// ... by a single key
+			return TOp{Kind: "mutate", Table: "N", Where: []Cond{}, Muts: []Mut{{Col: []string{"mus", "muu"}[g.Intn(2)], Mutator: "delete", Arg: val.VS(ref(""))}}}
+		case 7:
+			// delete pairs / set elements given with names
+			if g.Chance(0.5) {
+				return TOp{Kind: "mutate", Table: "N", Where: []Cond{}, Muts: []Mut{{Col: "msu", Mutator: "delete", Arg: val.VM([2]val.Atom{val.Str("k"), ref("")})}}}
+			}
+			return TOp{Kind: "mutate", Table: "N", Where: []Cond{}, Muts: []Mut{{Col: "su", Mutator: "delete", Arg: val.VS(ref(""))}}}
+		case 8:
+			return TOp{Kind: "mutate", Table: "N", Where: []Cond{{Col: "mus", Fn: "includes", Arg: val.VM([2]val.Atom{ref(""), val.Str("v")})}},
+				Muts: []Mut{{Col: "muu", Mutator: "insert", Arg: val.VM([2]val.Atom{ref(""), ref("")})}}}
+		case 9:
+			return TOp{Kind: "delete", Table: "N", Where: []Cond{{Col: "ou", Fn: "==", Arg: val.VSome(ref(""))}}}
 		case 0:
 			return TOp{Kind: "update", Table: "N", Where: []Cond{{Col: "u", Fn: "==", Arg: val.VA(ref(""))}}, Row: rowWithNames("N")}
 		case 1:
@@ -176,6 +193,63 @@ func driveC15(o opts) error {
 					for c, v := range r {
 						if namedUses(v) > 0 {
 							return fmt.Sprintf("row %s of %s column %s still holds an unresolved name: %v", u, t, c, v.JSONable())
+						}
+					}
+				}
+			}
+			// a delete mutation naming an inserted row by its uuid-name removes that row's uuid
+			nameUUID := map[string]string{}
+			for i, op := range ops {
+				if op.Kind == "insert" && op.Name != "" {
+					u := op.UUID
+					if u == "" && i < len(ob.Results) {
+						u = ob.Results[i].UUID
+					}
+					nameUUID[op.Name] = u
+				}
+			}
+			for i, op := range ops {
+				if op.Kind != "mutate" || len(op.Where) != 0 {
+					continue
+				}
+				for _, m := range op.Muts {
+					if m.Mutator != "delete" || m.Arg.K != 's' {
+						continue
+					}
+					later := false
+					for _, op2 := range ops[i+1:] {
+						if op2.Table != op.Table {
+							continue
+						}
+						if _, ok := op2.Row[m.Col]; ok || op2.Kind == "insert" {
+							later = true
+						}
+						for _, m2 := range op2.Muts {
+							if m2.Col == m.Col {
+								later = true
+							}
+						}
+					}
+					if later {
+						continue
+					}
+					for _, a := range m.Arg.Set {
+						u, named := nameUUID[a.S]
+						if a.T != 'u' || !named || u == "" {
+							continue
+						}
+						for ru, r := range ob.State[op.Table] {
+							v := r[m.Col]
+							for _, e := range v.Set {
+								if e.S == u {
+									return fmt.Sprintf("operation %d deletes the element named %s (uuid %s) from column %s, but row %s still holds it", i, a.S, u, m.Col, ru)
+								}
+							}
+							for _, pr := range v.Map {
+								if pr[0].T == 'u' && pr[0].S == u {
+									return fmt.Sprintf("operation %d deletes the key named %s (uuid %s) from column %s, but row %s still holds it", i, a.S, u, m.Col, ru)
+								}
+							}
 						}
 					}
 				}
